@@ -6,7 +6,7 @@ from checks.common import swarm
 ID = 'C19'
 LEVEL = 'exploration'
 NEEDS = ('threads',)
-QUICK = dict(runs=12000, wall=70)
+QUICK = dict(runs=36000, wall=85)
 THOROUGH = dict(runs=600000, wall=900)
 RULE = ('scenario = (batch_size 1..5, batch_wait_time in {0,10ms,1s}, end marker None/custom, n<=14 items with arrival gaps '
         'drawn from {0, w/2, w, 1.01w, 10w, 1ms}, optional late end marker) x seeded schedule of producer thread vs batcher; '
